@@ -935,6 +935,11 @@ def _run_manager_from_cli_worker(input_file_path: Path, output_directory: Path) 
 @click.option("--validate-only", default=False, is_flag=True, show_default=False, help="Validate input file and exit.")
 @click.option("-c", "--convert", help="Convert output to specified format. Options supported: 'IDF'.")
 def run_manager_from_cli(input_path, output_directory, validate_only, convert):
+    # click discards the return value of a command callback: make the status the process exit status
+    exit(_run_manager_from_cli_status(input_path, output_directory, validate_only, convert))
+
+
+def _run_manager_from_cli_status(input_path, output_directory, validate_only, convert) -> int:
     input_path = Path(input_path).resolve()
 
     if validate_only:
